@@ -25,7 +25,7 @@ if [[ "$suite" == *" 0 failed" && $with -ne 0 && $without -eq 0 ]]; then
 import json,sys
 pid,k,src,suite,d=sys.argv[1:]
 meta=open(f"{src}/OUT/meta_{k}.txt").read()
-json.dump({"property":pid,"source":"independent sub-agent given only the property text and a scratch worktree" + (" (second round: asked for less obvious locations)" if "wt2" in src else " (third round: three changes per property, less obvious locations)" if "wt3" in src else " (fourth round: as the third, plus a list of the kinds of change earlier rounds had produced, to be avoided)" if "wt4" in src else " (fifth round: as the fourth, with a longer list of kinds to avoid)" if "wt5" in src else ""),
+json.dump({"property":pid,"source":"independent sub-agent given only the property text and a scratch worktree" + (" (second round: asked for less obvious locations)" if "wt2" in src else " (third round: three changes per property, less obvious locations)" if "wt3" in src else " (fourth round: as the third, plus a list of the kinds of change earlier rounds had produced, to be avoided)" if "wt4" in src else " (fifth round: as the fourth, with a longer list of kinds to avoid)" if "wt5" in src else " (sixth round, short: two changes for each of eight properties that earlier blind rounds missed most often; same prompt as the fifth, 15-minute limit)" if "wt6" in src else ""),
  "needs_to_manifest":meta.strip(),
  "verified":{"suite_with_change":suite,"demo_with_change":"fails","demo_without_change":"passes",
    "how":"tools/verify_seed.sh in a scratch worktree of /repo (cargo test --workspace --no-fail-fast --offline; cargo test --test demo)",
